@@ -37,7 +37,7 @@ DAY = 24 * H
 BASE = datetime.datetime(2020, 2, 27)
 INC = "_tape_recorder_incomplete_recording"
 CATS = ["Op", "OpX", "Op_Y", "O", "Op_"]
-KPS = ["", "p", "p/q", "pq", "metadata"]
+KPS = ["", "p", "p/q", "pq", "metadata", "xmetadata/y"]
 CLASS_NAMES = {1: "lib.pyvals.OpaqueA", 2: "lib.pyvals.OpaqueB"}
 
 ATOMS = [pv.none(), pv.b(True), pv.b(False), pv.i(0), pv.i(1), pv.i(2), pv.fl(3, 2), pv.s(""), pv.s("a"), pv.s("ab"),
